@@ -63,6 +63,11 @@ def scenarios(tier):
         sc.append(("neighbours_" + kind, c, [AB(24), FILL(1), AB(8), FILL(2), AB(40), FILL(3), AB(8), FILL(4), AB(56), FILL(5), AB(8), FILL(6),
                                              AB(55), FILL(7), DROP(1), DROP(3), DROP(5)],
                    [[AB(20), FILL(T0), VER(T0), DROP(T0)], [AB(30), FILL(T1), VER(T1)]], {"live": True}))
+        # a retry budget of 0 / 1: a request nothing can serve must still return (the holder keeps its allocations for ever)
+        for rt in (0, 1):
+            c0 = es.conc_cfg(cap=200, kind=kind, minseg=8, retries=rt)
+            sc.append(("retries%d_%s" % (rt, kind), c0, SETUP_ONESEG,
+                       [[AB(60), AB(16), FILL(T0), VER(T0)], [AB(8), FILL(T1)]], {"live": True}))
         # discard_freelist against a release that becomes the new head between the discarder's mark and its unlink
         sc.append(("discard_vs_insert_" + kind, c, SETUP_TWOSEG,
                    [[{"k": "discard"}], [DROP(2), AB(8), FILL(T1), VER(T1)]], {"live": True}))
